@@ -30,7 +30,7 @@ def nontrivial(f):
 
 
 def run(sh):
-    n = 400 if sh.tier == 'quick' else 8000
+    n = 400 if sh.tier == 'quick' else 60000
     engine_line.run_profile(sh, 'C08', 'routing', n * 3 // 4, MONITORS, nontrivial)
     engine_line.run_profile(sh, 'C08', 'general', n // 4, MONITORS, nontrivial)
     # fan-out models aimed at the idle-longest rule
